@@ -139,6 +139,13 @@ OPAQUE = {
 FLOWSPEC = [(1, 133), (2, 133), (1, 134), (2, 134)]
 OK_PROBE = "((o 0 t))"
 
+# Integer-width boundary values, used in EVERY numeric domain of the generator.
+AS_NARROW = [0, 1, 64512, 65001, 65002, 65534, 65535, 23456]          # fit two octets; 23456 = AS_TRANS used as a REAL AS
+AS_WIDE = [65536, 65537, 70000, 131072, 4200000001, 4294967294, 4294967295]
+AS_EDGE = [65534, 65535, 65536, 23456, 4294967295]
+U32_EDGE = [0, 1, 255, 256, 65535, 65536, 16777215, 16777216, 2147483647, 2147483648, 4294967294, 4294967295]
+LEN_EDGE = [0, 1, 254, 255, 256, 257]
+
 
 def has_wire_form(fam, reach, kind, seed):
     """Mirror of Codec.hasWireForm: the only NLRI without a wire form are label stacks whose bit count exceeds 255."""
@@ -202,7 +209,7 @@ def gen_caps(r, fams, must, want_as4, want_em, ap_mode, enh, noise=True):
     if noise and r.chance(1, 3):
         caps.append("rr")
     if want_as4:
-        caps.append("(as4 %d)" % r.pick([65001, 65002, 4200000001, 23456]))
+        caps.append("(as4 %d)" % r.pick([65001, 65002, 4200000001, 23456] + AS_EDGE))
     if want_em:
         caps.append("em")
     aps = [(f, ap_mode(f)) for f in list(fams) + [m for m in must if m not in fams]]
@@ -264,12 +271,12 @@ def cap_pair(r, fam, force=None):
 # ------------------------------------------------------------------------------------------------ attributes
 def gen_aspath(r, two):
     segs = []
-    style = r.weighted([("short", 10), ("empty", 2), ("long", 3), ("huge", 1), ("confed", 2), ("wide", 6), ("set", 2),
-                        ("emptyseg", 1)])
+    style = r.weighted([("short", 10), ("empty", 2), ("long", 3), ("huge", 1), ("confed", 2), ("wide", 6 if not two else 12),
+                        ("set", 2), ("emptyseg", 1), ("edge", 3)])
     def asn(wide):
         if wide:
-            return r.pick([65536, 70000, 4200000001, 4294967295, 131072])
-        return r.pick([1, 64512, 65001, 65002, 65535, 23456])
+            return r.pick(AS_WIDE)
+        return r.pick(AS_NARROW)
     if style == "emptyseg" and r.chance(3, 4):
         style = "short"          # a zero-length segment is malformed (RFC 7606): outside the quantifier, keep it rare
     if style == "empty":
@@ -277,6 +284,13 @@ def gen_aspath(r, two):
     if style == "emptyseg":
         segs.append("(%d)" % r.pick([1, 2]))
         segs.append("(2 %s)" % " ".join(str(asn(r.chance(1, 3))) for _ in range(1 + r.below(3))))
+    if style == "edge":
+        # segment counts / attribute lengths at the one-octet boundary (2-octet form: 2 + 2n, 4-octet form: 2 + 4n bytes),
+        # AS numbers at the 16-bit boundary
+        n = r.pick([62, 63, 64, 126, 127, 128, 254, 255])
+        segs.append("(segr 2 %d %d %d)" % (n, r.pick([65534 - n // 2, 65535, 65536, 23456, 1]), r.pick([0, 1])))
+        if r.chance(1, 2):
+            segs.append("(%d %s)" % (r.pick([1, 2]), " ".join(str(r.pick(AS_EDGE)) for _ in range(1 + r.below(3)))))
     if style == "short":
         segs.append("(2 %s)" % " ".join(str(asn(False)) for _ in range(1 + r.below(4))))
     elif style == "wide":
@@ -323,38 +337,40 @@ def gen_attrs(r, info, big_target=None):
     else:
         attrs.append("(raw %d 2 %s)" % (r.pick([64, 80]), r.pick(["x", "x02020000fde900011170", "x0301000000010201000000020101fffffffe"])))
     if r.chance(1, 2):
-        attrs.append(fixed(4, 128, r.pick([0, 1, 100, 4294967295]), 4))
+        attrs.append(fixed(4, 128, r.pick([0, 1, 100, 4294967295] + U32_EDGE), 4))
     if r.chance(1, 2):
-        attrs.append(fixed(5, 64, r.pick([0, 100, 200, 4294967295]), 4))
+        attrs.append(fixed(5, 64, r.pick([0, 100, 200, 4294967295] + U32_EDGE), 4))
     if r.chance(1, 6):
         attrs.append("(bin 6 x)" if r.chance(3, 4) else "(raw %d 6 x)" % r.pick([64, 80]))
-    if r.chance(1, 4):
-        asn = r.pick([65001, 23456, 70000, 4200000001])
+    # AGGREGATOR: more often towards a 2-octet-AS peer (the RFC 6793 down-conversion / AS4_AGGREGATOR / "ignore AS4_PATH"
+    # rule), AS numbers at the 16-bit boundary and AS_TRANS as a real AS, independently of the AS_PATH's width
+    if r.chance(1, 2) if info["two"] else r.chance(1, 4):
+        asn = r.pick([65001, 70000, 4200000001] + AS_EDGE + AS_EDGE)
         ip = [192, 0, 2, r.below(256)]
         form = r.pick(["bin", "bin", "raw", "rawp", "raw6"])
         body = hexs(list(asn.to_bytes(4, "big")) + ip)
         if form == "raw6":
             # the 6-byte form of a 2-octet-AS speaker, as the decoder up-converts it
-            attrs.append("(raw %d 7 %s)" % (r.pick([192, 224]), hexs([0xfd, 0xe9] + ip)))
+            attrs.append("(raw %d 7 %s)" % (r.pick([192, 224]), hexs(list(r.pick([65001, 65534, 65535, 23456, 0]).to_bytes(2, "big")) + ip)))
         else:
             attrs.append("(bin 7 %s)" % body if form == "bin" else "(raw %d 7 %s)" % (192 if form == "raw" else 224, body))
     if r.chance(1, 3):
-        n = r.pick([0, 1, 2, 5, 63, 64, 70])
+        n = r.pick([0, 1, 2, 5, 63, 64, 65, 70])          # 252 / 256 / 260 bytes: the one-octet length boundary
         attrs.append("(bin 8 (fill %d %d))" % (4 * n, r.below(1000)))
     if r.chance(1, 6):
-        attrs.append(fixed(9, 128, r.pick([1, 3232235777]), 4))
+        attrs.append(fixed(9, 128, r.pick([1, 3232235777] + U32_EDGE), 4))
     if r.chance(1, 6):
         n = 4 * r.below(5)
         attrs.append("(bin 10 (fill %d %d))" % (n, r.below(1000)) if r.chance(3, 4)
                      else "(raw %d 10 (fill %d %d))" % (r.pick([128, 144]), n, r.below(1000)))
     if r.chance(1, 8):
-        attrs.append("(bin 16 (fill %d %d))" % (8 * r.below(40), r.below(1000)))
+        attrs.append("(bin 16 (fill %d %d))" % (8 * r.pick([r.below(40), 31, 32, 33]), r.below(1000)))
     if r.chance(1, 8):
-        attrs.append("(bin 32 (fill %d %d))" % (12 * r.below(30), r.below(1000)))
+        attrs.append("(bin 32 (fill %d %d))" % (12 * r.pick([r.below(30), 21, 22]), r.below(1000)))
     # TUNNEL_ENCAP / BGP-LS / PREFIX_SID values (opaque byte strings to the codec; > 255 bytes are common for LS)
     for code, canon in ((23, 192), (29, 128), (40, 192)):
         if r.chance(1, 10):
-            n = r.pick([0, 7, 40, 255, 256, 300, 1200])
+            n = r.pick([0, 7, 40, 254, 255, 256, 257, 300, 1200])
             if r.chance(3, 4):
                 attrs.append("(bin %d (fill %d %d))" % (code, n, r.below(1000)))
             else:
@@ -369,7 +385,7 @@ def gen_attrs(r, info, big_target=None):
     if r.chance(1, 6):
         code = r.pick([99, 100, 200, 255])
         flags = r.pick([192, 192, 224, 208, 193])
-        attrs.append("(opq %d %d (fill %d %d))" % (code, flags, r.pick([0, 1, 10, 255, 256, 300]), r.below(1000)))
+        attrs.append("(opq %d %d (fill %d %d))" % (code, flags, r.pick([0, 1, 10, 254, 255, 256, 257, 300]), r.below(1000)))
     if r.chance(1, 10):
         fl = r.pick([192, 208, 224])
         attrs.append("(raw %d %d (fill %d %d))" % (fl, r.pick([8, 16, 32]), 24 * r.below(12 if fl == 208 else 10), r.below(100)))
@@ -430,7 +446,7 @@ def gen_ip_entries(r, fam, info, count):
         if v6:
             mask = r.pick([0, 1, 8, 32, 48, 64, 64, 127, 128])
             addr = [0x20, 0x01, 0x0d, 0xb8, r.below(256)] + [r.below(256) if r.chance(1, 2) else 0 for _ in range(11)]
-            pid = (1 + r.below(5)) if (ap or r.chance(1, 50)) else 0
+            pid = r.pick([1 + r.below(5)] * 6 + [255, 256, 65535, 65536, 4294967290, 4294967295]) if (ap or r.chance(1, 50)) else 0
             ps = r.below(2) if ap else 0
             if n == 1 and r.chance(1, 2):
                 out.append("(v6 %s %d %d)" % (hexs(addr), mask, pid))
@@ -439,7 +455,7 @@ def gen_ip_entries(r, fam, info, count):
         else:
             mask = r.pick([0, 1, 8, 16, 24, 24, 25, 31, 32, 32])
             addr = r.pick([167772160, 3232235520, 2886729728, 16777216 * r.below(224)]) + r.below(1 << 16)
-            pid = (1 + r.below(5)) if (ap or r.chance(1, 50)) else 0
+            pid = r.pick([1 + r.below(5)] * 6 + [255, 256, 65535, 65536, 4294967290, 4294967295]) if (ap or r.chance(1, 50)) else 0
             ps = r.below(2) if ap else 0
             if n == 1 and r.chance(1, 2):
                 out.append("(v4 %d %d %d)" % (addr % (1 << 32), mask, pid))
@@ -451,7 +467,7 @@ def gen_ip_entries(r, fam, info, count):
 
 def pick_count(r, cap):
     """0 … 3×capacity, biased to small values and the frame boundaries."""
-    return r.weighted([(0, 1), (1, 8), (2, 4), (3 + r.below(10), 8), (max(0, cap - 3 + r.below(7)), 6),
+    return r.weighted([(0, 1), (1, 8), (2, 4), (3 + r.below(10), 8), (r.pick([254, 255, 256, 257]), 1), (max(0, cap - 3 + r.below(7)), 6),
                        (max(0, 2 * cap - 3 + r.below(7)), 3), (cap + r.below(2 * cap + 1), 3), (3 * cap, 1)])
 
 
@@ -497,7 +513,7 @@ def gen_open(r):
     fams = [f for f in IPFAMS + list(OPAQUE) if r.chance(1, 3)]
     style = r.weighted([("normal", 12), ("many", 2), ("edge", 2)])
     odd = r.chance(1, 8)          # values outside the quantifier (model = impl is still compared)
-    asn = r.pick([65001, 65535, 23456, 65536, 4200000001])
+    asn = r.pick([65001, 65535, 23456, 65536, 4200000001] + AS_EDGE + [1, 65537, 4294967294])
     caps = ["(mp %d %d)" % f for f in fams]
     if asn > 65535 or asn == 23456 or r.chance(1, 2):
         caps.append("(as4 %d)" % (asn if (asn > 65535 or asn == 23456) and not odd else r.pick([asn, 65001])))
@@ -568,7 +584,7 @@ def gen_small(r):
     c, s = r.pick(NOTIFS)
     limit = 65535 if info["em"] else 4096
     if (c, s) in WITH_DATA:
-        n = r.weighted([(0, 3), (2, 3), (r.below(64), 3), (limit - 21 - 2 + r.below(5), 1), (r.below(limit), 1)])
+        n = r.weighted([(0, 3), (2, 3), (r.below(64), 3), (r.pick(LEN_EDGE), 1), (limit - 21 - 2 + r.below(5), 1), (r.below(limit), 1)])
         if limit == 65535 and n > 5000 and r.chance(3, 4):
             n = r.below(300)
         data = "(fill %d %d)" % (n, r.below(1000)) if n > 8 else hexs([r.below(256) for _ in range(n)])
